@@ -950,6 +950,7 @@ def build_fn(ctx, unit, fs):
         it.name = fn_label
         parent_impl = fs.opts.get("impl_as", parent_impl).replace("~", " ")
     tail_cut = None
+    tail_cut2 = None
     if fs.opts.get("slice_tail"):
         # TAIL SLICING: the statements from an anchor to the end of the function body become a synthetic function whose
         # parameters are the variables they read (sparams=, sret=). The head half of the same function is extracted separately
@@ -962,22 +963,31 @@ def build_fn(ctx, unit, fs):
         arm = dict(item=fake, pre="", pre_line=0, tail="", tail_line=0,
                    params=fs.opts["sparams"].replace("~", " "), ret=fs.opts.get("sret", "()").replace("~", " "))
         tail_cut = (toks[bl].end, s_)
+        tail_cut2 = None
+        if fs.opts.get("slice_end"):
+            # MIDDLE: the slice ends before a second anchor instead of at the end of the body
+            e_s, _e2 = find_anchor(sf, s_, toks[bh].start, fs.opts["slice_end"].replace("~", " "), 1, fs.path)
+            tail_cut2 = (e_s, toks[bh].start)
         fn_label = fs.opts.get("as") or f"{it.name}__tail"
         it = fake
         it.name = fn_label
-        parent_impl = fs.opts.get("impl_as", parent_impl).replace("~", " ")
+        parent_impl = (fs.opts.get("impl_as", parent_impl) or "").replace("~", " ") or None
     has_body = it.body_open is not None
     sig_end_tok = it.body_open if has_body else it.tok_hi - 1   # `{` or `;`
     ctx.foreach_iter = {}
     if has_body and fs.loops:
         pre_loops = find_loops(sf, it.body_open, it.body_close)
+        if tail_cut:   # loop ordinals of a tail slice count the loops of the slice only
+            pre_loops = [l_ for l_ in pre_loops if toks[l_[0]].start >= tail_cut[1] and (not tail_cut2 or toks[l_[0]].start < tail_cut2[0])]
         for ordn_, ls_ in fs.loops.items():
             if 1 <= ordn_ <= len(pre_loops) and pre_loops[ordn_ - 1][4] == "for_each" and ls_.get("iter"):
                 ctx.foreach_iter[pre_loops[ordn_ - 1][0]] = ls_["iter"]
     edits = common_rewrites(ctx, sf, it.tok_lo, it.tok_hi, "fn", fs.opts)
     if tail_cut:
-        edits = [e_ for e_ in edits if e_.start >= tail_cut[1]]
+        edits = [e_ for e_ in edits if e_.start >= tail_cut[1] and (not tail_cut2 or e_.end <= tail_cut2[0])]
         edits.append(Edit(tail_cut[0], tail_cut[1], "\n"))
+        if tail_cut2:
+            edits.append(Edit(tail_cut2[0], tail_cut2[1], "\n"))
     in_trait_impl = bool(parent_impl) and (parent_impl.startswith("trait") or " for " in (" " + parent_impl + " "))
     if not arm:
         edits += ensure_pub(sf, it, in_trait_impl)
@@ -1104,6 +1114,8 @@ def build_fn(ctx, unit, fs):
                 ls_["auto_done"] = True
     if has_body:
         loops = find_loops(sf, it.body_open, it.body_close)
+        if tail_cut:
+            loops = [l_ for l_ in loops if toks[l_[0]].start >= tail_cut[1] and (not tail_cut2 or toks[l_[0]].start < tail_cut2[0])]
         for ordn, ls in sorted(fs.loops.items()):
             if ordn < 1 or ordn > len(loops):
                 raise LostAnchor(f"{fs.path}: loop #{ordn} not found (function has {len(loops)} loops)")
